@@ -232,6 +232,10 @@ def clear_array_attributes(entity: Entity, recursive: bool = False):
         if hasattr(entity, attribute):
             setattr(entity, f"_{attribute}", None)
 
+    # part labels are derived from the cells: released with them
+    if getattr(entity, "_parts", None) is not None:
+        setattr(entity, "_parts", None)
+
     if recursive and hasattr(entity, "children"):
         for child in entity.children:
             clear_array_attributes(child, recursive=recursive)
